@@ -1,4 +1,23 @@
 chk('C13', 'exploration',
-    'full product (s0, s1) in {0.1,0.05,0.3,1}^2 [thorough: +{0.02,3}] x mu/max(s0,s1) ladder of 11 [21] values in (0,20] x (OOK | PPM M in {2,4,...,256} x {hard,soft}) for ook.theory_BER / ppm.theory_BER (scalar and vector calls), and the same product x 4 offsets mu0 for ook/ppm.THRESHOLD_EST, BER_analizer("estimator") and utils.optimum_threshold; receiver model: every point within k<=2 (quick) / k<=4 (thorough) deviations of two baselines (unamplified; amplified G=20 dB, NF=5 dB) over 13 axes (ER, amplify, call form, G, NF, BW_opt/BW_el, r, R_L, T, NF_el, modulation/M/decision, BW_el, wavelength) with the FULL P_avg ladder {-50,...,0} dBm at each point for utils.p_ase, average_voltages, noise_variances, theory_BER (vector, scalar, fixed threshold); cross-device clause: full product of r, R_L, T, Fn, P_avg, ER, BW for PD (thermal and shot scales captured from the scripted numpy.random.normal requests, B = fs/2) and G x NF x wavelength x BW for EDFA (ASE quadrature scale captured through a scripted randn, BW_opt = fs); the minimal inputs of DESIGN 8 #8-#12 are replayed first',
-    'continuum quantifiers (all mu, s0, s1, all P_avg/ER/G/NF/...) are covered at the listed grid points only; the oracle is an independent scipy.special/quad evaluation of the formulas in the property text: grid-minimised BERs must lie in the band [true minimum, minimum on the 1000- (ook/ppm) or 5000-point (utils) threshold grid], quad-based soft-decision values are compared with atol 1e-8 (quad epsabs) - below that the soft formula carries no information; for M > 2 the statement gives no value for ppm.theory_BER(soft), deviations from the documented integral (up to 2.6e-7 absolute at one point) are recorded in coverage.stats, not reported; utils.theory_BER is called with f0 = c/wavelength explicitly; optimum_threshold is not required to stay inside [mu0, mu1] when no solution of (M-1)N0 = N1 lies there; numpy.random.normal(0, s) having variance s^2 is trusted (only the requested scale is observed)',
-    'bounded-exhaustive product + deviation lattice on the real functions against an independent closed-form/quadrature reference model (band oracle for grid minimisation, named wrong-model variants to classify a mismatch), scripted-RNG capture of the device noise scales', 'DESIGN.md 5/C13')
+    'full product (s0, s1) in {0.1,0.05,0.3,1}^2 [thorough +{0.02,3}] x 12 [22] values mu/max(s0,s1) in [1e-3,20] x (OOK | PPM M in {2,4,...,256} x {hard,soft}) for '
+    'ook/ppm.theory_BER (scalar, vector, 2-D, length-1, read-only calls; M as numpy integers), a slice also at common scales 1e-9,1e-6,1e6 [+1e-12] (216 / 1044 cases); the '
+    'same product x 6 offsets mu0 in {0,0.3,-1,5,-250,1000} for ook/ppm.THRESHOLD_EST, BER_analizer("estimator") and utils.optimum_threshold, and at offsets {0,0.3} [+ -1] x '
+    '10 kinds of eye objects carrying more than the four statistics (threshold attribute None / inside / at the ends / outside, timing fields, complete GET_EYE / lab.GET_EYE '
+    'records; 51 840 / 689 040 objects) + 4 eyes measured by devices.GET_EYE: same result as the bare object. Receiver model: every point within k<=3 (quick) / k<=4 '
+    '(thorough) deviations of two baselines (unamplified; amplified G=20 dB, NF=5 dB) over 15 axes (ER, amplify, call form, G, NF, BW_opt/BW_el, r, R_L, T, NF_el, 9 '
+    'modulation/M/decision members, BW_el, wavelength, type form of every numeric argument, type of M) = 7 850 / 48 841 points, each with the FULL 7-step P_avg ladder '
+    '-50..0 dBm for utils.p_ase, average_voltages, noise_variances, theory_BER (vector, scalar, 5 fixed thresholds 1e-6..1-1e-6) and the helper results chained into the '
+    'slot-level formulas / estimators; utils.theory_BER vectorised over each of 11 arguments at every point within 1 [2] deviations (583 / 6 787); 39 forms cases (7 operand '
+    'type forms, containers, documented defaults, keyword vs positional, undocumented spellings: rejected or same value); cross-device clause: full product of r, R_L, T, Fn, '
+    'P_avg, ER, BW for PD (thermal and shot scales captured from scripted numpy.random.normal requests) and G x NF x wavelength x BW for EDFA (scripted randn) = 2 154 / '
+    '14 628 cases; 165 calls under 8 ambient gv configurations (bit-identical); kernel call-history part (10 calls x 3 grids vs a fresh interpreter); the minimal inputs of '
+    'DESIGN 8 #8-#12 are replayed first. quick 11 343 / thorough 72 668 cases; VERIF_SEED is not used',
+    'continuum quantifiers (all mu, s0, s1, P_avg/ER/G/NF/...) are covered at the listed grid points only; oracle = independent scipy.special/quad evaluation of the formulas '
+    'in the property text: grid-minimised BERs must lie in the band [true minimum, minimum on the 1000- (ook/ppm) or 5000-point (utils) threshold grid]; quad-based soft '
+    'values are compared with atol 1e-8 (quad epsabs); for M > 2 the statement gives no value for ppm.theory_BER(soft): deviations from the documented integral (4 quick '
+    'points, up to 2.6e-7) are recorded in coverage.stats, not reported; the lattice calls utils.theory_BER with explicit f0 = c/wavelength; optimum_threshold need not stay '
+    'inside [mu0, mu1] when no solution lies there (nan accepted when none exists); vector non-P_avg arguments of the helpers, empty vectors, bool/complex/float16 operands '
+    'and invalid inputs are outside; numpy.random.normal(0, s) having variance s^2 is trusted (only the requested scale is observed)',
+    'bounded-exhaustive product + deviation lattice on the real functions against an independent closed-form/quadrature reference model (band oracle for grid minimisation, '
+    'named wrong-model variants to classify a mismatch), differential oracle between argument forms / eye-object kinds / ambient grids, scripted-RNG capture of the device '
+    'noise scales, fresh-interpreter differential oracle for the kernel call-history part', 'DESIGN.md 5/C13')
